@@ -47,6 +47,10 @@ func errOf(c byte) error {
 		return leader.ErrPermissionDenied
 	case 'P':
 		return fmt.Errorf("wrapped: %w", leader.ErrBucketNotFound)
+	case 'E': // a permanent sentinel inside the library's structured error, with a reason of its own
+		return leader.NewElectionError("ACCESS", "n1", "store refused the credentials", leader.ErrPermissionDenied)
+	case 'F': // ... inside somebody else's wrapper type
+		return &foreignErr{msg: "operation failed", err: leader.ErrInvalidConfig}
 	case 'T':
 		return leader.NewTimeoutError("op", time.Second, nil)
 	case 'W':
@@ -59,7 +63,16 @@ func errOf(c byte) error {
 	return errors.New("x")
 }
 
-func isPermScript(c byte) bool { return c == 'p' || c == 'P' }
+func isPermScript(c byte) bool { return c == 'p' || c == 'P' || c == 'E' || c == 'F' }
+
+// foreignErr wraps an error without repeating its text.
+type foreignErr struct {
+	msg string
+	err error
+}
+
+func (e *foreignErr) Error() string { return e.msg }
+func (e *foreignErr) Unwrap() error { return e.err }
 
 func genC17(seed uint64) *c17Scenario {
 	r := NewRng(seed, "c17")
@@ -101,10 +114,10 @@ func genC17(seed uint64) *c17Scenario {
 	s.Jitter = Pick(r, []float64{0, 0.1, 0.5, 1})
 	n := 1 + r.Intn(10)
 	for i := 0; i < n; i++ {
-		s.Script += string(Pick(r, []byte{'t', 't', 't', 'T', 'W', 'd', 'c', 'n', 'p', 'P'}))
+		s.Script += string(Pick(r, []byte{'t', 't', 't', 'T', 'W', 'd', 'c', 'n', 'p', 'P', 'E', 'F'}))
 		s.OpDur = append(s.OpDur, int64(Pick(r, []time.Duration{0, 0, 1 * ms, 300 * ms})))
 	}
-	if s.MaxAttempts == 0 && !strings.ContainsAny(s.Script, "npP") {
+	if s.MaxAttempts == 0 && !strings.ContainsAny(s.Script, "npPEF") {
 		s.Script += "n" // an unbounded retry must end somehow
 		s.OpDur = append(s.OpDur, 0)
 	}
@@ -223,17 +236,28 @@ func RunC17(t *testing.T, seed uint64) *Result {
 		type inv struct{ start, end time.Duration }
 		var invs []inv
 		k := 0
+		runaway := false
 		err := leader.RetryWithBackoff(ctx, cfg, func() error {
 			i := k
 			if i >= len(sc.Script) {
 				i = len(sc.Script) - 1
 			}
 			k++
+			if k > len(sc.Script)+sc.MaxAttempts+8 {
+				// the loop does not stop where it must (the script ends with a success or a permanent
+				// error): end the run here instead of spinning for ever; the verdict below reports it
+				runaway = true
+				cancel()
+				return context.Canceled
+			}
 			s0 := now()
 			time.Sleep(time.Duration(sc.OpDur[i]))
 			invs = append(invs, inv{s0, now()})
 			return errOf(sc.Script[i])
 		})
+		if runaway {
+			bad("retry-does-not-stop", fmt.Sprintf("the operation was invoked more than %d times although invocation %d of the script (%s) ends the loop", len(sc.Script)+sc.MaxAttempts+8, len(sc.Script), sc.Script))
+		}
 		judged++
 		n := len(invs)
 		if sc.MaxAttempts > 0 && n > sc.MaxAttempts {
